@@ -643,6 +643,9 @@ func crossProcessCheck(self string, raw json.RawMessage, dir string) (*Violation
 				return nil, outs[0] // operands differ: not attributable to this call
 			}
 			op := strings.Fields(a)[2]
+			if strings.HasPrefix(a, "construct") {
+				op = "Diff/Read"
+			}
 			v := viol15("across-processes", op, "the same call on identical values returned different results in two fresh processes: %s | %s", showStr(a[ia+8:]), showStr(b[ib+8:]))
 			return v, []string{"process 0: " + a, fmt.Sprintf("process %d: %s", p, b)}
 		}
